@@ -357,7 +357,7 @@ def load_known():
 
 
 def write_replay(pid, obj):
-    d = os.path.join(ROOT, "replays")
+    d = os.path.join(ROOT, "replays") if REPO == "/repo" else os.path.join(ROOT, ".work", "replays-scratch")
     os.makedirs(d, exist_ok=True)
     p = os.path.join(d, "%s-%d.json" % (pid, int(time.time())))
     json.dump(obj, open(p, "w"), indent=1)
@@ -535,8 +535,10 @@ def main():
         "wall_s": round(time.time() - t_start, 1),
         "violations": violations,
     }
-    os.makedirs(os.path.join(ROOT, "evidence"), exist_ok=True)
-    json.dump(ev, open(os.path.join(ROOT, "evidence", pid + ".json"), "w"), indent=1)
+    # evidence of runs against a scratch copy (VERIF_REPO) must not replace the real one
+    evdir = os.path.join(ROOT, "evidence") if REPO == "/repo" else os.path.join(ROOT, ".work", "evidence-scratch")
+    os.makedirs(evdir, exist_ok=True)
+    json.dump(ev, open(os.path.join(evdir, pid + ".json"), "w"), indent=1)
     print("%s %s: theorems=%d/%d cases=%d mismatches=%d witnesses=%d(new %d) wall=%.0fs" % (
         pid, "FAIL" if violations else "ok", ev["coverage"]["discharged"], n_obl, evaluations,
         ev["coverage"]["disagreements_checked"], len(witnesses), len(new), ev["wall_s"]))
